@@ -2042,10 +2042,9 @@ fn process_file_context<T: Read + Write>(
             //info!(log, "stream #{} did send {:?}", stream.id, stream.msgs_sent);
         }
         // for queries (not streams), check whether query is done:
-        if ((
-            ((!got_new_msgs && !(fc.collect_mode==CollectMode::OnePassStreams))
-                ||(parser_thread_finished && fc.collect_mode == CollectMode::OnePassStreams)) 
-            && (stream.all_msgs_last_processed_len >= all_msgs_len)) // no new msgs and all processed
+        // (a tick without new msgs is not the end of the msgs: the parser might just not have delivered yet)
+        if ((parser_thread_finished // no more msgs will arrive
+            && (stream.all_msgs_last_processed_len >= all_msgs_len)) // and all processed
             || (stream.msgs_sent.end >= stream.msgs_to_send.end)) // or window size achieved
             && !stream.is_stream
         {
